@@ -544,6 +544,16 @@ Qed.
 (* ------------------------------------------------------------------ *)
 (* the scheduler pass *)
 
+Lemma nodup_app_intro {A} (a b : list A) :
+  NoDup a -> NoDup b -> (forall x, In x a -> In x b -> False) -> NoDup (a ++ b).
+Proof.
+  induction a as [|x a IH]; intros Ha Hb Hd; cbn; [exact Hb|].
+  inversion Ha as [|y l Hni Hnd]; subst. constructor.
+  - intro Hin. apply in_app_iff in Hin. destruct Hin as [Hin|Hin]; [contradiction|].
+    eapply Hd; [left; reflexivity|exact Hin].
+  - apply IH; auto. intros z Hz Hz'. eapply Hd; [right; exact Hz|exact Hz'].
+Qed.
+
 Definition batch_commits (hb : hkey * list (N * envelope)) : list ckey :=
   map (fun ie => (fst hb, fst ie)) (snd hb).
 Definition commits (bs : list (hkey * list (N * envelope))) : list ckey := flat_map batch_commits bs.
@@ -613,6 +623,10 @@ Proof.
       - cbn in E. eapply Hne; eauto. }
     cbn [pass_heads] in Hp. destruct (hs_admitted s) eqn:Adm.
     + destruct (inbox_admit (hs_inbox s)) as [ib' batch] eqn:Ha.
+      assert (Hdd : commit_dedupe [] batch = batch).
+      { apply commit_dedupe_id; [|intros ? []].
+        apply (sorted_nodup_keys N.compare N_order). apply (admit_spec _ _ _ Hsi Ha). }
+      rewrite Hdd in Hp. clear Hdd.
       destruct batch as [|b0 bt].
       * (* nothing admitted *)
         destruct (pass_heads r cm) as [[r' cm1] bs1] eqn:Hr. injection Hp as E1 E2 E3; subst hs' cm' bs.
@@ -663,8 +677,8 @@ Proof.
         split.
         { intros x. rewrite Hm, Hm1. unfold commits. cbn [flat_map]. rewrite in_app_iff. tauto. }
         split.
-        { unfold commits. cbn [flat_map]. apply NoDup_app_intro.
-          - unfold batch_commits. cbn [fst snd]. apply FinFun.Injective_map_NoDup_in || idtac.
+        { unfold commits. cbn [flat_map]. apply nodup_app_intro.
+          - unfold batch_commits. cbn [fst snd].
             clear - Hndb. induction batch as [|[i e] bt' IHb]; cbn; [constructor|].
             cbn in Hndb. inversion Hndb as [|a l Hni Hnd']; subst. constructor; auto.
             intro Hin. apply Hni. apply in_map_iff in Hin. destruct Hin as [[j e'] [E Hin]].
@@ -711,3 +725,538 @@ Proof.
            destruct Hin as [[h2 s2] [E2 Hin]]. cbn in E2; subst h2. eapply Hne; eauto.
       * eapply Hdj'; eauto.
 Qed.
+
+(* ------------------------------------------------------------------ *)
+(* runtime steps *)
+
+Definition hkey_eqb (a b : hkey) : bool := match hkey_cmp a b with Eq => true | _ => false end.
+
+Lemma hkey_eqb_eq a b : hkey_eqb a b = true <-> a = b.
+Proof. unfold hkey_eqb. destruct (hkey_cmp a b) eqn:E; split; intros X; try discriminate; try reflexivity.
+  - apply h_eq; exact E.
+  - subst. rewrite (fm_refl hkey_cmp hkey_order) in E. discriminate.
+  - subst. rewrite (fm_refl hkey_cmp hkey_order) in E. discriminate.
+Qed.
+
+Lemma mem_ins_cases {V} i0 i (e : V) m : isorted m ->
+  mem N.compare i0 (ins N.compare i e m) = true -> i0 = i \/ mem N.compare i0 m = true.
+Proof.
+  intros Hs. unfold mem. destruct (N.eq_dec i0 i) as [->|Hne]; [auto|].
+  rewrite find_ins_other by (fn; auto). auto.
+Qed.
+
+Section RuntimeProofs.
+  Variable H : bytes -> N.
+  Notation iid := (ingress_id H).
+
+  (* does this submission reach the inbox of head h? *)
+  Definition goes (rt : runtime) (e : envelope) (h : hkey) : bool :=
+    match resolve rt (e_target e) with
+    | RHead h' => hkey_eqb h' h && negb (mem ckey_cmp (h, iid e) (rt_committed rt))
+    | _ => false
+    end.
+
+  Lemma submit_fields rt e :
+    rt_worlds (fst (submit H rt e)) = rt_worlds rt /\ rt_defaults (fst (submit H rt e)) = rt_defaults rt /\
+    rt_named (fst (submit H rt e)) = rt_named rt /\ rt_committed (fst (submit H rt e)) = rt_committed rt.
+  Proof.
+    unfold submit. destruct (resolve rt (e_target e)); cbn; auto.
+    destruct (mem ckey_cmp (h, iid e) (rt_committed rt)); cbn; auto.
+    destruct (find hkey_cmp h (rt_heads rt)); cbn; auto.
+    destruct (ingest (hs_inbox h0) (iid e) e) as [ib' []]; cbn; auto.
+  Qed.
+
+  Lemma opt_id {A} (o : option A) : match o with Some s => Some s | None => None end = o.
+  Proof. destruct o; reflexivity. Qed.
+
+  Lemma submit_heads rt e h : rt_wf rt ->
+    find hkey_cmp h (rt_heads (fst (submit H rt e))) =
+    match find hkey_cmp h (rt_heads rt) with
+    | Some s => Some (if goes rt e h then with_inbox s (fst (ingest (hs_inbox s) (iid e) e)) else s)
+    | None => None
+    end.
+  Proof.
+    intros [[Hhs Hin] [Hcs Hdj]]. unfold submit, goes.
+    destruct (resolve rt (e_target e)) as [h'| | |] eqn:R; cbn [fst]; try (symmetry; apply opt_id).
+    destruct (hkey_eqb h' h) eqn:Eq.
+    - apply hkey_eqb_eq in Eq; subst h'. cbn [andb].
+      destruct (mem ckey_cmp (h, iid e) (rt_committed rt)) eqn:C; cbn [fst negb]; [symmetry; apply opt_id|].
+      destruct (find hkey_cmp h (rt_heads rt)) as [s|] eqn:F; cbn [fst]; [|rewrite F; reflexivity].
+      assert (Hsi : isorted (ib_pending (hs_inbox s))) by (eapply Hin; apply (find_in hkey_cmp h_eq); exact F).
+      pose proof (ingest_result_spec (hs_inbox s) (iid e) e Hsi) as Sp.
+      destruct (ingest (hs_inbox s) (iid e) e) as [ib' []] eqn:I; cbn [fst snd] in *.
+      + cbn [with_heads rt_heads]. rewrite find_set_same by fh. reflexivity.
+      + destruct Sp as [_ [-> _]]. rewrite F, with_inbox_eta. reflexivity.
+      + destruct Sp as [_ ->]. rewrite F, with_inbox_eta. reflexivity.
+    - cbn [andb].
+      assert (Hne : h <> h') by (intro; subst; rewrite (proj2 (hkey_eqb_eq h' h') eq_refl) in Eq; discriminate).
+      destruct (mem ckey_cmp (h', iid e) (rt_committed rt)); cbn [fst]; [symmetry; apply opt_id|].
+      destruct (find hkey_cmp h' (rt_heads rt)) as [s|] eqn:F; cbn [fst]; [|symmetry; apply opt_id].
+      destruct (ingest (hs_inbox s) (iid e) e) as [ib' []]; cbn [fst]; try (symmetry; apply opt_id).
+      cbn [with_heads rt_heads]. rewrite find_set_other by (fh; auto). symmetry; apply opt_id.
+  Qed.
+
+  Lemma submit_wf rt e : rt_wf rt -> rt_wf (fst (submit H rt e)).
+  Proof.
+    intros Hwf. pose proof Hwf as [[Hhs Hin] [Hcs Hdj]]. unfold submit.
+    destruct (resolve rt (e_target e)) as [h| | |]; cbn [fst]; auto.
+    destruct (mem ckey_cmp (h, iid e) (rt_committed rt)) eqn:C; cbn [fst]; auto.
+    destruct (find hkey_cmp h (rt_heads rt)) as [s|] eqn:F; cbn [fst]; auto.
+    assert (Hsi : isorted (ib_pending (hs_inbox s))) by (eapply Hin; apply (find_in hkey_cmp h_eq); exact F).
+    pose proof (ingest_sorted (hs_inbox s) (iid e) e Hsi) as Hs'.
+    pose proof (ingest_pending (hs_inbox s) (iid e) e Hsi) as Hp.
+    destruct (ingest (hs_inbox s) (iid e) e) as [ib' []] eqn:I; cbn [fst] in *; auto.
+    split; [|split].
+    - cbn. apply heads_ok_set; [split; assumption|exact Hs'].
+    - exact Hcs.
+    - cbn [with_heads rt_heads rt_committed]. intros h' s' i Hin' Hm.
+      destruct (in_set_cases _ _ _ _ _ Hhs Hin') as [[-> ->]|[Hne Hold]].
+      + cbn [with_inbox hs_inbox] in Hm. rewrite Hp in Hm.
+        destruct (policy_accepts (ib_policy (hs_inbox s)) e).
+        * destruct (mem_ins_cases _ _ _ _ Hsi Hm) as [->|Hm'].
+          -- unfold cmem. rewrite C. discriminate.
+          -- eapply Hdj; [apply (find_in hkey_cmp h_eq); exact F|exact Hm'].
+        * eapply Hdj; [apply (find_in hkey_cmp h_eq); exact F|exact Hm].
+      + eapply Hdj; eauto.
+  Qed.
+
+  Lemma mem_heads_submit rt e h : rt_wf rt ->
+    mem hkey_cmp h (rt_heads (fst (submit H rt e))) = mem hkey_cmp h (rt_heads rt).
+  Proof.
+    intros Hwf. unfold mem. rewrite submit_heads by exact Hwf.
+    destruct (find hkey_cmp h (rt_heads rt)); reflexivity.
+  Qed.
+
+  Lemma resolve_submit rt e t : rt_wf rt -> resolve (fst (submit H rt e)) t = resolve rt t.
+  Proof.
+    intros Hwf. destruct (submit_fields rt e) as [_ [Hd [Hn _]]].
+    destruct t; cbn; rewrite ?Hd, ?Hn, ?mem_heads_submit by exact Hwf; reflexivity.
+  Qed.
+
+  Lemma goes_submit rt e e' h : rt_wf rt -> goes (fst (submit H rt e)) e' h = goes rt e' h.
+  Proof.
+    intros Hwf. unfold goes. rewrite resolve_submit by exact Hwf.
+    destruct (submit_fields rt e) as [_ [_ [_ ->]]]. reflexivity.
+  Qed.
+
+  Lemma submit_all_wf l : forall rt, rt_wf rt -> rt_wf (submit_all H rt l).
+  Proof.
+    unfold submit_all. induction l as [|e r IH]; intros rt Hwf; cbn; auto. apply IH, submit_wf, Hwf.
+  Qed.
+
+  Lemma submit_all_fields l : forall rt,
+    rt_worlds (submit_all H rt l) = rt_worlds rt /\ rt_defaults (submit_all H rt l) = rt_defaults rt /\
+    rt_named (submit_all H rt l) = rt_named rt /\ rt_committed (submit_all H rt l) = rt_committed rt.
+  Proof.
+    unfold submit_all. induction l as [|e r IH]; intros rt; cbn; auto.
+    destruct (IH (fst (submit H rt e))) as [A [B [C D]]]. destruct (submit_fields rt e) as [A' [B' [C' D']]].
+    repeat split; congruence.
+  Qed.
+
+  (* bulk submission = per head, bulk ingestion of what is routed to that head *)
+  Lemma submit_all_heads l : forall rt h, rt_wf rt ->
+    find hkey_cmp h (rt_heads (submit_all H rt l)) =
+    match find hkey_cmp h (rt_heads rt) with
+    | Some s => Some (with_inbox s (ingest_all H (hs_inbox s) (filter (fun e => goes rt e h) l)))
+    | None => None
+    end.
+  Proof.
+    induction l as [|e r IH]; intros rt h Hwf.
+    - cbn. destruct (find hkey_cmp h (rt_heads rt)) as [s|]; [|reflexivity]. unfold ingest_all. cbn.
+      rewrite with_inbox_eta. reflexivity.
+    - unfold submit_all in *. cbn [fold_left]. rewrite IH by (apply submit_wf; exact Hwf).
+      rewrite submit_heads by exact Hwf.
+      destruct (find hkey_cmp h (rt_heads rt)) as [s|]; [|reflexivity]. f_equal.
+      rewrite (filter_ext (fun e0 => goes (fst (submit H rt e)) e0 h) (fun e0 => goes rt e0 h))
+        by (intros; apply goes_submit; exact Hwf).
+      cbn [filter]. destruct (goes rt e h); [|reflexivity].
+      destruct s as [ib adm]. cbn [with_inbox hs_inbox hs_admitted]. unfold ingest_all. reflexivity.
+  Qed.
+
+  Definition id_determines_envelope_per_head (rt : runtime) (l : list envelope) : Prop :=
+    forall e1 e2, In e1 l -> In e2 l -> iid e1 = iid e2 ->
+      resolve rt (e_target e1) = resolve rt (e_target e2) -> e1 = e2.
+
+  (* pass_order_free: the whole runtime state after a window of submissions depends on the
+     submitted SET only; hence so do all later passes, dispositions and commits *)
+  Lemma submit_all_set rt l1 l2 : rt_wf rt -> id_determines_envelope_per_head rt l1 ->
+    (forall e, In e l1 <-> In e l2) -> submit_all H rt l1 = submit_all H rt l2.
+  Proof.
+    intros Hwf Hd Hset.
+    destruct (submit_all_fields l1 rt) as [A1 [B1 [C1 D1]]]. destruct (submit_all_fields l2 rt) as [A2 [B2 [C2 D2]]].
+    assert (Hh : rt_heads (submit_all H rt l1) = rt_heads (submit_all H rt l2)).
+    { apply (sorted_ext hkey_cmp h_eq h_as h_tr).
+      - apply (submit_all_wf l1 rt Hwf).
+      - apply (submit_all_wf l2 rt Hwf).
+      - intros h. rewrite !submit_all_heads by exact Hwf.
+        destruct (find hkey_cmp h (rt_heads rt)) as [s|] eqn:F; [|reflexivity]. do 2 f_equal.
+        apply ingest_all_set.
+        + destruct Hwf as [[_ Hin] _]. eapply Hin. apply (find_in hkey_cmp h_eq). exact F.
+        + intros e1 e2 H1 H2 E. apply filter_In in H1. apply filter_In in H2.
+          destruct H1 as [H1 G1], H2 as [H2 G2]. apply Hd; auto.
+          unfold goes in G1, G2.
+          destruct (resolve rt (e_target e1)) as [h1| | |]; try discriminate.
+          destruct (resolve rt (e_target e2)) as [h2| | |]; try discriminate.
+          apply andb_true_iff in G1. apply andb_true_iff in G2.
+          destruct G1 as [G1 _], G2 as [G2 _]. apply hkey_eqb_eq in G1. apply hkey_eqb_eq in G2. congruence.
+        + intros e. rewrite !filter_In. rewrite Hset. tauto. }
+    destruct (submit_all H rt l1), (submit_all H rt l2). cbn in *. congruence.
+  Qed.
+
+  (* --- steps preserve the invariant and commit only fresh pairs --- *)
+  Lemma step_spec rt o rt1 x : rt_wf rt -> step H rt o = (rt1, x) ->
+    rt_wf rt1 /\ NoDup (commits_of x) /\
+    (forall y, In y (commits_of x) -> ~ cmem y (rt_committed rt)) /\
+    (forall y, cmem y (rt_committed rt1) <-> cmem y (rt_committed rt) \/ In y (commits_of x)).
+  Proof.
+    intros Hwf Hst. destruct o as [e| |h p|h b]; cbn [step] in Hst.
+    - pose proof (submit_wf rt e Hwf) as Hwf'. destruct (submit_fields rt e) as [_ [_ [_ Hc]]].
+      destruct (submit H rt e) as [rt' d]. inversion Hst; subst. cbn [fst] in *.
+      split; [exact Hwf'|]. cbn. split; [constructor|]. split; [intros ? []|]. intros y. rewrite Hc. tauto.
+    - destruct Hwf as [Hok [Hcs Hdj]].
+      destruct (pass_heads (rt_heads rt) (rt_committed rt)) as [[hs' cm'] bs] eqn:Hp.
+      inversion Hst; subst; clear Hst.
+      destruct (pass_heads_spec _ _ _ _ _ Hok Hcs Hdj Hp) as [_ [Hok' [Hcs' [Hm [Hnd [Hfresh [Hdj' _]]]]]]].
+      split; [split; [exact Hok'|split; [exact Hcs'|exact Hdj']]|].
+      change (commits_of (OPass bs)) with (commits bs).
+      split; [exact Hnd|]. split; [intros y Hy; apply (Hfresh y Hy)|]. exact Hm.
+    - destruct (find hkey_cmp h (rt_heads rt)) as [s|] eqn:F; inversion Hst; subst; clear Hst; cbn [commits_of].
+      + split; [|split; [constructor|split; [intros ? []|intros; cbn; tauto]]].
+        destruct Hwf as [[Hhs Hin] [Hcs Hdj]].
+        assert (Hsi : isorted (ib_pending (hs_inbox s))) by (eapply Hin; apply (find_in hkey_cmp h_eq); exact F).
+        split; [|split; [exact Hcs|]].
+        * cbn. apply heads_ok_set; [split; assumption|]. cbn. apply sorted_filter; exact Hsi.
+        * cbn [with_heads rt_heads rt_committed]. intros h' s' i Hin' Hm.
+          destruct (in_set_cases _ _ _ _ _ Hhs Hin') as [[-> ->]|[Hne Hold]]; [|eapply Hdj; eauto].
+          cbn in Hm. apply filter_find_sub in Hm; [|exact Hsi].
+          eapply Hdj; [apply (find_in hkey_cmp h_eq); exact F|exact Hm].
+      + split; [exact Hwf|]. split; [constructor|]. split; [intros ? []|]. intros; cbn; tauto.
+    - destruct (find hkey_cmp h (rt_heads rt)) as [s|] eqn:F; inversion Hst; subst; clear Hst; cbn [commits_of].
+      + split; [|split; [constructor|split; [intros ? []|intros; cbn; tauto]]].
+        destruct Hwf as [[Hhs Hin] [Hcs Hdj]].
+        assert (Hsi : isorted (ib_pending (hs_inbox s))) by (eapply Hin; apply (find_in hkey_cmp h_eq); exact F).
+        split; [|split; [exact Hcs|]].
+        * cbn. apply heads_ok_set; [split; assumption|exact Hsi].
+        * cbn [with_heads rt_heads rt_committed]. intros h' s' i Hin' Hm.
+          destruct (in_set_cases _ _ _ _ _ Hhs Hin') as [[-> ->]|[Hne Hold]]; [|eapply Hdj; eauto].
+          cbn in Hm. eapply Hdj; [apply (find_in hkey_cmp h_eq); exact F|exact Hm].
+      + split; [exact Hwf|]. split; [constructor|]. split; [intros ? []|]. intros; cbn; tauto.
+  Qed.
+
+  (* at_most_once, with the exact content of committed_ingress *)
+  Lemma run_spec ops : forall rt rt' outs, rt_wf rt -> run H rt ops = (rt', outs) ->
+    rt_wf rt' /\ NoDup (all_commits outs) /\
+    (forall y, In y (all_commits outs) -> ~ cmem y (rt_committed rt)) /\
+    (forall y, cmem y (rt_committed rt') <-> cmem y (rt_committed rt) \/ In y (all_commits outs)).
+  Proof.
+    induction ops as [|o r IH]; intros rt rt' outs Hwf Hr; cbn [run] in Hr.
+    - inversion Hr; subst. cbn. split; [exact Hwf|]. split; [constructor|]. split; [intros ? []|]. intros y; tauto.
+    - destruct (step H rt o) as [rt1 x] eqn:Hs. destruct (run H rt1 r) as [rt2 xs] eqn:Hr2.
+      inversion Hr; subst; clear Hr.
+      destruct (step_spec _ _ _ _ Hwf Hs) as [Hwf1 [Hnd1 [Hf1 Hm1]]].
+      destruct (IH _ _ _ Hwf1 Hr2) as [Hwf2 [Hnd2 [Hf2 Hm2]]].
+      split; [exact Hwf2|]. unfold all_commits. cbn [flat_map]. fold (all_commits xs).
+      split.
+      { apply nodup_app_intro; auto. intros y Hy Hy'. apply (Hf2 y Hy'). apply Hm1. right. exact Hy. }
+      split.
+      { intros y Hy. apply in_app_iff in Hy. destruct Hy as [Hy|Hy]; [apply Hf1; exact Hy|].
+        intro Hc. apply (Hf2 y Hy). apply Hm1. left. exact Hc. }
+      intros y. rewrite Hm2, Hm1, in_app_iff. tauto.
+  Qed.
+
+  (* a retry after the commit is a Duplicate and changes nothing *)
+  Lemma submit_committed_duplicate rt e h :
+    resolve rt (e_target e) = RHead h -> cmem (h, iid e) (rt_committed rt) ->
+    submit H rt e = (rt, DDuplicate h (iid e)).
+  Proof. intros R C. unfold submit. rewrite R. unfold cmem in C. rewrite C. reflexivity. Qed.
+
+  (* a retry while pending is a Duplicate and changes nothing *)
+  Lemma submit_pending_duplicate rt e h s :
+    resolve rt (e_target e) = RHead h -> ~ cmem (h, iid e) (rt_committed rt) ->
+    find hkey_cmp h (rt_heads rt) = Some s -> policy_accepts (ib_policy (hs_inbox s)) e = true ->
+    mem N.compare (iid e) (ib_pending (hs_inbox s)) = true ->
+    submit H rt e = (rt, DDuplicate h (iid e)).
+  Proof.
+    intros R C F A M. unfold submit. rewrite R. unfold cmem in C.
+    destruct (mem ckey_cmp (h, iid e) (rt_committed rt)); [exfalso; apply C; reflexivity|].
+    rewrite F. unfold ingest. rewrite A. unfold mem in M.
+    destruct (find N.compare (iid e) (ib_pending (hs_inbox s))); [reflexivity|discriminate].
+  Qed.
+End RuntimeProofs.
+
+(* ------------------------------------------------------------------ *)
+(* the id preimage is uniquely decodable inside each domain *)
+
+Lemma app_inj_len {A} (a1 a2 r1 r2 : list A) :
+  length a1 = length a2 -> a1 ++ r1 = a2 ++ r2 -> a1 = a2 /\ r1 = r2.
+Proof.
+  revert a2; induction a1 as [|x a1 IH]; intros [|y a2] Hl E; cbn in *; try discriminate; auto.
+  inversion E; subst. destruct (IH a2) as [-> ->]; auto.
+Qed.
+
+Lemma pow256_32 : 256 ^ N.of_nat 32 = 2 ^ 256.
+Proof. vm_compute. reflexivity. Qed.
+Lemma pow256_8 : 256 ^ N.of_nat 8 = 2 ^ 64.
+Proof. vm_compute. reflexivity. Qed.
+
+Lemma be32_inj x y : x < 2 ^ 256 -> y < 2 ^ 256 -> be_bytes 32 x = be_bytes 32 y -> x = y.
+Proof.
+  intros Hx Hy E. unfold be_bytes in E. apply (f_equal (@rev N)) in E. rewrite !rev_involutive in E.
+  apply (le_bytes_inj 32); rewrite ?pow256_32; auto.
+Qed.
+
+Lemma le8_inj x y : x < 2 ^ 64 -> y < 2 ^ 64 -> le_bytes 8 x = le_bytes 8 y -> x = y.
+Proof. intros Hx Hy E. apply (le_bytes_inj 8); rewrite ?pow256_8; auto. Qed.
+
+Definition wf_rref (r : rref) : Prop :=
+  match r with
+  | (wl, (t, (g, (c, (s, (k, d)))))) =>
+      wl < 2 ^ 256 /\ t < 2 ^ 64 /\ g < 2 ^ 64 /\ c < 2 ^ 256 /\ s < 2 ^ 256 /\ k < 2 ^ 256 /\ d < 2 ^ 256
+  end.
+
+Definition wf_content (k : N) (b : bytes) (ps : list parent) : Prop :=
+  k < 2 ^ 256 /\ lenN b < 2 ^ 64 /\ lenN ps < 2 ^ 64 /\ Forall (fun p => wf_rref (snd p)) ps.
+
+Lemma rref_bytes_len r : length (rref_bytes r) = 176%nat.
+Proof.
+  destruct r as [wl [t [g [c [s [k d]]]]]]. unfold rref_bytes.
+  rewrite !app_length, !be_bytes_length, !le_bytes_length. reflexivity.
+Qed.
+
+Ltac split_fixed E :=
+  let E1 := fresh "E" in let E2 := fresh "E" in
+  apply app_inj_len in E; [destruct E as [E1 E2]|rewrite ?be_bytes_length, ?le_bytes_length; reflexivity].
+
+Lemma rref_bytes_inj r1 r2 : wf_rref r1 -> wf_rref r2 -> rref_bytes r1 = rref_bytes r2 -> r1 = r2.
+Proof.
+  destruct r1 as [w1 [t1 [g1 [c1 [s1 [k1 d1]]]]]], r2 as [w2 [t2 [g2 [c2 [s2 [k2 d2]]]]]].
+  cbn [wf_rref rref_bytes]. intros [A1 [A2 [A3 [A4 [A5 [A6 A7]]]]]] [B1 [B2 [B3 [B4 [B5 [B6 B7]]]]]] E.
+  apply app_inj_len in E; [|rewrite !be_bytes_length; reflexivity]. destruct E as [E1 E].
+  apply app_inj_len in E; [|rewrite !le_bytes_length; reflexivity]. destruct E as [E2 E].
+  apply app_inj_len in E; [|rewrite !le_bytes_length; reflexivity]. destruct E as [E3 E].
+  apply app_inj_len in E; [|rewrite !be_bytes_length; reflexivity]. destruct E as [E4 E].
+  apply app_inj_len in E; [|rewrite !be_bytes_length; reflexivity]. destruct E as [E5 E].
+  apply app_inj_len in E; [|rewrite !be_bytes_length; reflexivity]. destruct E as [E6 E7].
+  apply be32_inj in E1, E4, E5, E6, E7; auto. apply le8_inj in E2, E3; auto. congruence.
+Qed.
+
+Lemma parent_bytes_inj p1 p2 r1 r2 : wf_rref (snd p1) -> wf_rref (snd p2) ->
+  parent_bytes p1 ++ r1 = parent_bytes p2 ++ r2 -> p1 = p2 /\ r1 = r2.
+Proof.
+  destruct p1 as [[] q1], p2 as [[] q2]; unfold parent_bytes; cbn [fst snd]; intros W1 W2 E;
+    try (cbn in E; discriminate).
+  - rewrite <- !app_assoc in E. apply app_inv_head in E.
+    apply app_inj_len in E; [|rewrite !rref_bytes_len; reflexivity]. destruct E as [E ->].
+    apply rref_bytes_inj in E; auto. subst; auto.
+  - rewrite <- !app_assoc in E. apply app_inv_head in E.
+    apply app_inj_len in E; [|rewrite !rref_bytes_len; reflexivity]. destruct E as [E ->].
+    apply rref_bytes_inj in E; auto. subst; auto.
+Qed.
+
+Lemma parents_bytes_inj ps1 : forall ps2,
+  Forall (fun p => wf_rref (snd p)) ps1 -> Forall (fun p => wf_rref (snd p)) ps2 ->
+  length ps1 = length ps2 -> flat_map parent_bytes ps1 = flat_map parent_bytes ps2 -> ps1 = ps2.
+Proof.
+  induction ps1 as [|p r IH]; intros [|q r2] W1 W2 Hl E; cbn in *; try discriminate; auto.
+  inversion W1; inversion W2; subst.
+  apply parent_bytes_inj in E; auto. destruct E as [-> E]. f_equal. apply IH; auto.
+Qed.
+
+Lemma lenN_inj {A B} (a : list A) (b : list B) : lenN a = lenN b -> length a = length b.
+Proof. unfold lenN. apply Nat2N.inj. Qed.
+
+Lemma id_preimage_inj k1 b1 ps1 k2 b2 ps2 :
+  wf_content k1 b1 ps1 -> wf_content k2 b2 ps2 -> (ps1 = [] <-> ps2 = []) ->
+  id_preimage k1 b1 ps1 = id_preimage k2 b2 ps2 -> k1 = k2 /\ b1 = b2 /\ ps1 = ps2.
+Proof.
+  intros [K1 [L1 [P1 W1]]] [K2 [L2 [P2 W2]]] Hd E. unfold id_preimage in E.
+  destruct ps1 as [|p1 r1], ps2 as [|p2 r2].
+  - apply app_inv_head in E. apply app_inj_len in E; [|rewrite !be_bytes_length; reflexivity].
+    destruct E as [E ->]. apply be32_inj in E; auto.
+  - exfalso. assert (X : p2 :: r2 = []) by (apply Hd; reflexivity). discriminate.
+  - exfalso. assert (X : p1 :: r1 = []) by (apply Hd; reflexivity). discriminate.
+  - apply app_inv_head in E.
+    apply app_inj_len in E; [|rewrite !be_bytes_length; reflexivity]. destruct E as [E1 E].
+    apply app_inj_len in E; [|rewrite !le_bytes_length; reflexivity]. destruct E as [E2 E].
+    apply be32_inj in E1; auto. apply le8_inj in E2; auto.
+    apply app_inj_len in E; [|apply lenN_inj; exact E2]. destruct E as [-> E].
+    apply app_inj_len in E; [|rewrite !le_bytes_length; reflexivity]. destruct E as [E3 E].
+    apply le8_inj in E3; auto.
+    apply parents_bytes_inj in E; auto. apply lenN_inj; exact E3.
+Qed.
+
+Definition Collision (H : bytes -> N) : Prop := exists x y, x <> y /\ H x = H y.
+
+Lemma bytes_eq_dec (a b : bytes) : {a = b} + {a <> b}.
+Proof. apply list_eq_dec, N.eq_dec. Qed.
+
+(* equal ingress ids name equal content inside a domain, or exhibit a hash collision *)
+Lemma ingress_id_binds (H : bytes -> N) e1 e2 :
+  wf_content (e_kind e1) (e_bytes e1) (e_parents e1) -> wf_content (e_kind e2) (e_bytes e2) (e_parents e2) ->
+  (e_parents e1 = [] <-> e_parents e2 = []) ->
+  ingress_id H e1 = ingress_id H e2 -> content e1 = content e2 \/ Collision H.
+Proof.
+  intros W1 W2 Hd E. unfold ingress_id in E.
+  destruct (bytes_eq_dec (env_preimage e1) (env_preimage e2)) as [Ep|Ne].
+  - left. destruct (id_preimage_inj _ _ _ _ _ _ W1 W2 Hd Ep) as [A [B C]]. unfold content. congruence.
+  - right. exists (env_preimage e1), (env_preimage e2). auto.
+Qed.
+
+(* ... but NOT across the two domains: a parentless intent whose (hand-made) kind starts with
+   the bytes "causal:v2\0" can have the very same preimage as a causal intent. *)
+Definition alias_kind : N := N.shiftl 0x63617573616c3a763200 176.
+Definition alias_bytes : bytes :=
+  repeat 0 10 ++ le_bytes 8 0 ++ le_bytes 8 1 ++ parent_bytes (false, (0, (0, (0, (0, (0, (0, 0))))))).
+Definition alias_parent : parent := (false, (0, (0, (0, (0, (0, (0, 0))))))).
+
+Lemma cross_domain_alias :
+  wf_content alias_kind alias_bytes [] /\ wf_content 0 [] [alias_parent] /\
+  id_preimage alias_kind alias_bytes [] = id_preimage 0 [] [alias_parent] /\
+  (alias_kind, alias_bytes, @nil parent) <> (0, @nil N, [alias_parent]).
+Proof.
+  split; [|split; [|split]].
+  - unfold wf_content. split; [vm_compute; reflexivity|]. split; [vm_compute; reflexivity|].
+    split; [vm_compute; reflexivity|constructor].
+  - unfold wf_content. split; [vm_compute; reflexivity|]. split; [vm_compute; reflexivity|].
+    split; [vm_compute; reflexivity|]. constructor; [|constructor]. cbn. repeat split; vm_compute; reflexivity.
+  - vm_compute. reflexivity.
+  - discriminate.
+Qed.
+
+(* ------------------------------------------------------------------ *)
+(* admit_partitioned *)
+
+Lemma split_sel_spec f : forall p limit s m, isorted p -> split_sel f limit p = (s, m) ->
+  (forall x, In x p <-> In x s \/ In x m) /\ isorted s /\ isorted m /\
+  (forall x, In x s -> f x = true) /\
+  (match limit with Some n => lenN s <= n | None => True end) /\
+  (* the selection is a prefix of the category in id order: anything of the category left
+     behind is above everything selected, and is only left behind when the limit is hit *)
+  (forall x y, In x s -> In y m -> f y = true -> fst x < fst y) /\
+  (forall y, In y m -> f y = true -> match limit with Some n => lenN s = n | None => False end).
+Proof.
+  induction p as [|x r IH]; intros limit s m Hs Hsp; cbn [split_sel] in Hsp.
+  - inversion Hsp; subst. split; [intros y; cbn; tauto|]. split; [exact I|]. split; [exact I|].
+    split; [intros ? []|]. split; [destruct limit; [apply N.le_0_l|exact I]|].
+    split; [intros ? ? []|intros ? []].
+  - assert (Hsr : isorted r) by (destruct x; cbn in Hs; tauto).
+    assert (Hlt : forall y, In y r -> fst x < fst y).
+    { destruct x as [k v]. cbn in Hs. destruct Hs as [Hlb Hs']. intros [k' v'] Hy. cbn.
+      apply N.compare_lt_iff. eapply (lb_all N.compare n_tr k r Hs' Hlb). exact Hy. }
+    destruct (f x && negb (lim_zero limit)) eqn:C.
+    + destruct (split_sel f (lim_dec limit) r) as [s1 m1] eqn:Hr. inversion Hsp; subst; clear Hsp.
+      apply andb_true_iff in C. destruct C as [Fx Lz].
+      destruct (IH _ _ _ Hsr Hr) as [Hin [Hss [Hsm [Hf [Hlen [Hpre Hleft]]]]]].
+      split; [intros y; cbn; rewrite Hin; tauto|].
+      split.
+      { destruct x as [k v]. cbn. split; [|exact Hss].
+        destruct s1 as [|[k2 v2] s2]; [exact I|]. cbn.
+        apply N.compare_lt_iff. apply (Hlt (k2, v2)). apply Hin. left. left. reflexivity. }
+      split; [exact Hsm|]. split; [intros y [<-|Hy]; auto|].
+      split.
+      { destruct limit as [n|]; [|exact I]. cbn in Hlen, Lz. unfold lenN in *. cbn [length].
+        rewrite Nat2N.inj_succ. destruct n; [discriminate|]. lia. }
+      split.
+      { intros a y [<-|Ha] Hy Fy; [apply Hlt; apply Hin; right; exact Hy|eauto]. }
+      intros y Hy Fy. specialize (Hleft y Hy Fy). destruct limit as [n|]; [|exact Hleft].
+      cbn in Hleft, Lz. unfold lenN in *. cbn [length]. rewrite Nat2N.inj_succ. destruct n; [discriminate|]. lia.
+    + destruct (split_sel f limit r) as [s1 m1] eqn:Hr. inversion Hsp; subst; clear Hsp.
+      destruct (IH _ _ _ Hsr Hr) as [Hin [Hss [Hsm [Hf [Hlen [Hpre Hleft]]]]]].
+      split; [intros y; cbn; rewrite Hin; tauto|].
+      split; [exact Hss|].
+      split.
+      { destruct x as [k v]. cbn. split; [|exact Hsm].
+        destruct m1 as [|[k2 v2] m2]; [exact I|]. cbn.
+        apply N.compare_lt_iff. apply (Hlt (k2, v2)). apply Hin. right. left. reflexivity. }
+      split; [exact Hf|]. split; [exact Hlen|].
+      split.
+      { intros a y Ha [<-|Hy] Fy; [|eauto].
+        (* x itself is of the category but was not selected: the limit is 0, so s is empty *)
+        rewrite Fy in C. cbn in C. destruct limit as [[|n]|]; try discriminate.
+        cbn in Hlen. destruct s as [|? ?]; [destruct Ha|]. unfold lenN in Hlen. cbn in Hlen. lia. }
+      intros y [<-|Hy] Fy; [|exact (Hleft y Hy Fy)].
+      rewrite Fy in C. cbn in C. destruct limit as [[|n]|]; try discriminate.
+      cbn in Hlen. destruct s as [|? ?]; [reflexivity|]. unfold lenN in Hlen. cbn in Hlen. lia.
+Qed.
+
+(* admit_partitioned: the batch never mixes the two execution categories, is ascending,
+   and together with what stays pending is exactly the old pending map *)
+Lemma admit_partitioned_spec ib pk pl tick ib' batch : isorted (ib_pending ib) ->
+  admit_partitioned ib pk pl tick = (ib', batch) ->
+  (forall x, In x (ib_pending ib) <-> In x batch \/ In x (ib_pending ib')) /\
+  isorted batch /\ isorted (ib_pending ib') /\ ib_policy ib' = ib_policy ib /\
+  (exists sel, forall x, In x batch -> in_part pk x = sel) /\
+  (match ib_policy ib with Budgeted n => lenN batch <= n | _ => True end).
+Proof.
+  intros Hs Ha. unfold admit_partitioned in Ha.
+  destruct (negb (existsb (in_part pk) (ib_pending ib) || existsb (fun ie => negb (in_part pk ie)) (ib_pending ib))).
+  - inversion Ha; subst. split; [intros x; cbn; tauto|]. split; [exact I|]. split; [exact Hs|].
+    split; [reflexivity|]. split; [exists true; intros ? []|].
+    destruct (ib_policy ib'); auto. apply N.le_0_l.
+  - set (sel := if existsb (in_part pk) (ib_pending ib) && existsb (fun ie => negb (in_part pk ie)) (ib_pending ib)
+                then N.even tick else existsb (in_part pk) (ib_pending ib)) in *.
+    set (plim := match ib_policy ib with Budgeted n => Some n | _ => None end) in *.
+    set (limit := if sel then lim_min plim (Some pl) else plim) in *.
+    destruct (split_sel (fun ie => Bool.eqb (in_part pk ie) sel) limit (ib_pending ib)) as [s m] eqn:Hsp.
+    inversion Ha; subst; clear Ha. cbn [ib_pending ib_policy].
+    destruct (split_sel_spec _ _ _ _ _ Hs Hsp) as [Hin [Hss [Hsm [Hf [Hlen _]]]]].
+    split; [exact Hin|]. split; [exact Hss|]. split; [exact Hsm|]. split; [reflexivity|].
+    split; [exists sel; intros x Hx; apply eqb_prop, Hf, Hx|].
+    subst limit plim. destruct (ib_policy ib) as [| |n]; auto.
+    destruct sel; cbn in Hlen; [|exact Hlen]. lia.
+Qed.
+
+(* ------------------------------------------------------------------ *)
+(* runtimes built through register_writer_head are well formed *)
+
+Lemma rt_empty_wf ws : rt_wf (rt_empty ws).
+Proof.
+  split; [split; [exact I|intros ? ? []]|]. split; [exact I|]. intros ? ? ? [].
+Qed.
+
+Lemma register_head_wf rt h p nm d : rt_wf rt -> rt_wf (fst (register_head rt h p nm d)).
+Proof.
+  intros Hwf. unfold register_head.
+  destruct (negb (existsb (N.eqb (fst h)) (rt_worlds rt))); [exact Hwf|].
+  destruct (mem hkey_cmp h (rt_heads rt)); [exact Hwf|].
+  destruct (d && mem N.compare (fst h) (rt_defaults rt)); [exact Hwf|].
+  destruct (match nm with Some nm0 => mem nkey_cmp (fst h, nm0) (rt_named rt) | None => false end); [exact Hwf|].
+  destruct Hwf as [[Hhs Hin] [Hcs Hdj]]. cbn [fst]. split; [|split].
+  - cbn [rt_heads]. apply heads_ok_set; [split; assumption|exact I].
+  - exact Hcs.
+  - cbn [rt_heads rt_committed]. intros h' s' i Hin' Hm.
+    destruct (in_set_cases _ _ _ _ _ Hhs Hin') as [[-> ->]|[Hne Hold]]; [cbn in Hm; discriminate|].
+    eapply Hdj; eauto.
+Qed.
+
+Lemma retry_after_commit (H : bytes -> N) ops rt rt' outs e h :
+  rt_wf rt -> run H rt ops = (rt', outs) ->
+  In (h, ingress_id H e) (all_commits outs) -> resolve rt' (e_target e) = RHead h ->
+  submit H rt' e = (rt', DDuplicate h (ingress_id H e)).
+Proof.
+  intros Hwf Hr Hin R. destruct (run_spec H ops rt rt' outs Hwf Hr) as [_ [_ [_ Hm]]].
+  apply submit_committed_duplicate; [exact R|]. apply Hm. right. exact Hin.
+Qed.
+
+Lemma at_most_once_l (H : bytes -> N) ops rt rt' outs :
+  rt_wf rt -> run H rt ops = (rt', outs) ->
+  NoDup (all_commits outs) /\
+  (forall y, In y (all_commits outs) -> ~ cmem y (rt_committed rt)) /\
+  (forall y, cmem y (rt_committed rt') <-> cmem y (rt_committed rt) \/ In y (all_commits outs)).
+Proof. intros Hwf Hr. destruct (run_spec H ops rt rt' outs Hwf Hr) as [_ [A [B C]]]. auto. Qed.
+
+Lemma pass_order_free_l (H : bytes -> N) rt l1 l2 ops :
+  rt_wf rt -> id_determines_envelope_per_head H rt l1 -> (forall e, In e l1 <-> In e l2) ->
+  run H (submit_all H rt l1) ops = run H (submit_all H rt l2) ops.
+Proof. intros Hwf Hd Hs. rewrite (submit_all_set H rt l1 l2 Hwf Hd Hs). reflexivity. Qed.
+
+Lemma commit_dedupe_noop_l ib ib' batch :
+  isorted (ib_pending ib) -> inbox_admit ib = (ib', batch) -> commit_dedupe [] batch = batch.
+Proof.
+  intros Hs Ha. apply commit_dedupe_id; [|intros ? []]. eapply admit_batch_nodup; eauto.
+Qed.
+
+Lemma admit_arrival_independent (H : bytes -> N) ib l1 l2 :
+  isorted (ib_pending ib) -> id_determines_envelope H l1 -> (forall e, In e l1 <-> In e l2) ->
+  inbox_admit (ingest_all H ib l1) = inbox_admit (ingest_all H ib l2).
+Proof. intros Hs Hd Hset. rewrite (ingest_all_set H ib l1 l2 Hs Hd Hset). reflexivity. Qed.
